@@ -3,8 +3,9 @@
   `bandec` with row exchanges by magnitude followed by the product of the pivots and the sign) equals
   `Matrix.det` of the dense twin.
 
-  Class (E): `F` a linearly ordered field (`IsStrictOrderedRing`), scalar interpretation
-  `Ohsl.Alg.scalarExt`.
+  Class (E): `F` a field whose scalar interpretation satisfies `Alg.PivotLaws` (guarded field
+  division, magnitude comparison = comparison of a size in a linear order); linearly ordered
+  fields with `Ohsl.Alg.scalarExt` and the model's `Cx ℝ` are instances.
 
   * `pivotLoop_max`      the pivot search returns a row of maximal magnitude: a zero pivot means that
                          the whole column is zero inside the window
@@ -30,8 +31,8 @@ namespace Band
 open Mat (forM' Is forM'_inv aget_ok aset_ok aget_eq_ok toMat)
 
 section BandDet
-variable {F : Type} [Field F] [LinearOrder F] [IsStrictOrderedRing F]
-attribute [local instance] Ohsl.Alg.scalarExt
+variable {F : Type} [Field F] [DecidableEq F] [BEq F] [LawfulBEq F] [ScalarExt F]
+  [Alg.PivotLaws F]
 
 /-! ### the pivot search picks a row of maximal magnitude -/
 
@@ -48,16 +49,16 @@ theorem pivotLoop_max {au : Mat F} {n mm : Nat} {e : Nat → Nat → F} (hau : I
         let x ← au.get j 0
         if ScalarExt.lt (ScalarExt.mag dum) (ScalarExt.mag x) then pure (x, j) else pure (dum, i))
         = .ok st ∧ st.1 = e st.2 0 ∧ k ≤ st.2 ∧ st.2 < l ∧
-          ∀ j, k ≤ j → j < l → |e j 0| ≤ |st.1| by
+          ∀ j, k ≤ j → j < l → Alg.PivotLaws.size (e j 0) ≤ Alg.PivotLaws.size st.1 by
     obtain ⟨⟨d, ip⟩, h1, h2, h3, h4, h5⟩ := key
     simp only at h2 h3 h4 h5
     refine ⟨ip, h3, h4, ?_, by rw [h1, h2]⟩
     intro hz j hj1 hj2
     have := h5 j hj1 hj2
-    rw [h2, hz, abs_zero] at this
-    exact abs_nonpos_iff.mp this
+    rw [h2, hz] at this
+    exact (Alg.size_le_zero_iff _).1 this
   refine forM'_inv (fun t (st : F × Nat) => st.1 = e st.2 0 ∧ k ≤ st.2 ∧ st.2 < t ∧
-      ∀ j, k ≤ j → j < t → |e j 0| ≤ |st.1|) (k + 1) l
+      ∀ j, k ≤ j → j < t → Alg.PivotLaws.size (e j 0) ≤ Alg.PivotLaws.size st.1) (k + 1) l
     (e k 0, k) _ hkl ⟨rfl, Nat.le_refl _, by simp, ?_⟩ ?_
   · intro j hj1 hj2
     have : j = k := by omega
@@ -66,8 +67,8 @@ theorem pivotLoop_max {au : Mat F} {n mm : Nat} {e : Nat → Nat → F} (hau : I
   obtain ⟨d, ip⟩ := st
   simp only at h1 h2 h3 h4
   have g := hau.get (show t < n by omega) hmm
-  simp only [g, bind, Except.bind, Alg.mag_eq_abs, Alg.lt_eq]
-  by_cases hlt : |d| < |e t 0|
+  simp only [g, bind, Except.bind, Alg.PivotLaws.lt_mag]
+  by_cases hlt : Alg.PivotLaws.size d < Alg.PivotLaws.size (e t 0)
   · refine ⟨(e t 0, t), by simp [hlt, pure, Except.pure], rfl, by simp only; omega,
       by simp only; omega, ?_⟩
     intro j hj1 hj2
@@ -301,7 +302,7 @@ theorem decStep_detInv {n m1 mm k : Nat} {A : Nat → Nat → F} {st : Dec F × 
   · rw [det_swapR _ hk (show ip < n by omega) hik, if_pos hik]
     ring
 
-/-- (E) `decompose` (for `m1 ≤ n`) always succeeds over a linearly ordered field, and its result
+/-- (E) `decompose` (for `m1 ≤ n`) always succeeds over an exact field with `Alg.PivotLaws`, and its result
     satisfies `DetInv` at `k = n` with respect to the dense twin of `b` -/
 theorem decompose_detInv {b : Band F} (h : WFb b) (hm : b.m1 ≤ b.n) :
     ∃ s l, decompose b = .ok s ∧ DetInv b.n b.m1 (b.m1 + b.m2 + 1) (dense b) b.n (s, l) := by
